@@ -21,8 +21,10 @@ LEVEL = "exploration"
 RULE = ("Hypothesis draws a seed k (int, str or bytes) and a sequence of 1-8 SchemaSpecs without "
         "unfixed uuid4/datetime/date nodes, weighted towards regex nodes with negated classes / "
         "[^x] (hash-order-sensitive) and draw-heavy nodes; the sequence is generated after "
-        "Random().set_seed(k) in 4 fresh interpreters with different PYTHONHASHSEED values and twice "
-        "in-process with unrelated operations interleaved; all outputs must be identical position by "
+        "Random().set_seed(k) in 4 interpreters with different PYTHONHASHSEED values - one that has already generated "
+        "(also from schemas whose generation fails below containers), one that serves every request in a forked child "
+        "without any history, one whose clocks advance 7 s per reading, one plain - and twice in-process with unrelated "
+        "operations interleaved; all outputs must be identical position by "
         "position. distinct = canonical JSON of the case; non-trivial = the sequence holds a "
         "hash-order-sensitive construct or >=3 drawing nodes")
 ASSUMPTIONS = ["four hash seeds (0, 1, 2, 4242) stand for 'whatever its hash randomisation'",
